@@ -24,10 +24,7 @@ Lemma reversal_description_ok : bytes_eqb reversal_description [82; 69; 86; 69; 
 Proof. vm_compute. reflexivity. Qed.
 
 Lemma RT_ok : tables_ok RT = true.
-Proof.
-  unfold tables_ok, RT. cbn [rt_arms rt_std rt_pre rt_fix rt_amt].
-  now rewrite reversal_code_table_ok, reversal_fixups_ok, reversal_amount_lists_ok.
-Qed.
+Proof. vm_compute. reflexivity. Qed.
 
 Lemma reversal_code_map c : reversible rev_standard_codes c = true ->
   code_props reversal_arms rev_standard_codes rev_prenote_codes c.
@@ -40,8 +37,18 @@ Lemma reversible_set :
 Proof. vm_compute. reflexivity. Qed.
 
 Lemma reversal_batch_ok d b :
-  rbatch_valid RT b = true -> all_reversible RT b = true -> batch_reversed RT d b (reversal_batch RT d b).
+  rbatch_valid RT b = true -> all_reversible RT b = true -> is_prenote_desc (rb_desc b) = false ->
+  batch_reversed RT d b (reversal_batch RT d b).
 Proof. apply reversal_batch_correct, RT_ok. Qed.
+
+(* the finding: a batch described PRENOTE may carry zero amounts on ordinary codes; Reversal
+   replaces the description, after which ValidAmountForCodes rejects the zero amounts *)
+Definition prenote_batch : rbatch :=
+  mkrbatch 220 220 [80; 82; 69; 78; 79; 84; 69]%N [49; 57; 48; 56; 49; 54]%N 0 0 [mkentry 22 0 1%N 1%N].
+Lemma reversal_prenote_description :
+  rbatch_valid RT prenote_batch = true /\ all_reversible RT prenote_batch = true
+  /\ rbatch_valid RT (reversal_batch RT [50]%N prenote_batch) = false.
+Proof. vm_compute. repeat split. Qed.
 
 Lemma reversal_twice d1 d2 b : all_reversible RT b = true ->
   codes (reversal_batch RT d2 (reversal_batch RT d1 b)) = codes b.
@@ -68,8 +75,9 @@ Definition ex_batch2 : rbatch :=
            [mkentry 23 0 3%N 1%N; mkentry 36 7 4%N 2%N].
 Definition ex_file : rfile := mkrfile [49]%N [50]%N [ex_batch; ex_batch2] 307 0.
 
-Example ex_batch_hyps : rbatch_valid RT ex_batch = true /\ all_reversible RT ex_batch = true.
-Proof. vm_compute. split; reflexivity. Qed.
+Example ex_batch_hyps : rbatch_valid RT ex_batch = true /\ all_reversible RT ex_batch = true
+  /\ is_prenote_desc (rb_desc ex_batch) = false.
+Proof. vm_compute. repeat split. Qed.
 
 Example ex_batch_reversed :
   reversal_batch RT [50]%N ex_batch =
